@@ -15,6 +15,9 @@ CHECKS = {
  "C05": ("exploration", "bounded-exhaustive differential execution across the optimisation/lowering configuration lattice",
          "Every function of the execution space is compiled under every configuration of the lattice (6 corners quick, 88 configurations thorough) and run on the full boundary cross product; results are compared with the optimisations-disabled baseline. No hand-written expected values are involved.",
          "Only pointer-free results are compared (addresses legitimately differ); programs that read the gas counter are excluded; ample gas.", "DESIGN.md §3 C05"),
+ "C16": ("exploration", "exhaustive enumeration of CASM instruction shapes x boundary offsets x boundary immediates x machine states; one real cairo-vm step per case against a reference step",
+         "Every shape Instruction::assemble accepts is encoded, decoded by cairo-vm and executed for exactly one step from prepared machine states; the resulting pc/ap/fp/memory writes (or failure) must equal a reference step written from the meaning of the instruction; encode().len()==op_size()==decoded size. The space is finite and covered completely (exhaustive:true).",
+         "cairo-vm 3.2.0 is trusted as the meaning of bytecode; QM31/blake bodies are checked for size/decodability only.", "DESIGN.md §3 C16"),
  "C17": ("exploration", "bounded-exhaustive execution with an ap/pc monitor over the relocated trace (shadow call stack) plus a static tiling check of statement ranges",
          "For every dynamic call instance in every run the measured ap movement is compared with function_ap_change; every trace pc must fall in exactly one recorded statement range on an instruction boundary; ranges must tile the code. Millions of dynamic call instances per quick run.",
          "Call/ret convention fixed on the unmodified tree; both ap-change solvers; functions with unknown ap change are not judged.", "DESIGN.md §3 C17"),
